@@ -94,8 +94,62 @@ class Ctx:
         return ms
 
 
-def explore(ctx, oracles, max_states=None, record_graph=False):
-    """BFS over the implementation's reachable states. Returns dict with counts (and the graph)."""
+def param_expressible(spec):
+    """names of exploits / escalations that own a parameter vector: the first definition of each
+    (service|process, OS) pair in scenario order (decided from the scenario text)"""
+    first_e, first_p = {}, {}
+    for n, e in spec["exploits"].items():
+        first_e.setdefault((e["service"], e["os"]), n)
+    for n, e in spec["privescs"].items():
+        first_p.setdefault((e["process"], e["os"]), n)
+    return set(first_e.values()), set(first_p.values())
+
+
+def param_vector(spec, mact):
+    tt = ["exploit", "privesc", "service_scan", "os_scan", "subnet_scan", "process_scan"]
+    if mact["type"] not in tt:
+        return None
+    v = [tt.index(mact["type"]), mact["target"][0] - 1, mact["target"][1], 0, 0, 0]
+    if mact["type"] in ("exploit", "privesc"):
+        v[3] = 0 if mact["os"] is None else spec["os"].index(mact["os"]) + 1
+    if mact["type"] == "exploit":
+        v[4] = spec["services"].index(mact["service"])
+    if mact["type"] == "privesc":
+        v[5] = spec["processes"].index(mact["process"])
+    return v
+
+
+def explore(ctx, oracles, max_states=None, record_graph=False, action_rep="object"):
+    """BFS over the implementation's reachable states. Returns dict with counts (and the graph).
+    action_rep="param": every action is handed to a parameterised-action environment as its parameter
+    vector (actions without a vector are skipped), so the decode path of that space is inside the loop."""
+    if action_rep == "param":
+        from nasim.envs import NASimEnv
+        if getattr(ctx, "penv", None) is None:
+            ctx.penv = NASimEnv(ctx.scenario, fully_obs=False, flat_actions=False, flat_obs=True)
+        ctx.env_object = ctx.env
+        ctx.env = ctx.penv
+        ok_e, ok_p = param_expressible(ctx.spec)
+        reps = []
+        for m in ctx.mactions:
+            if m is None or m["type"] == "noop":
+                reps.append(None)
+            elif m["type"] == "exploit" and m["name"] not in ok_e:
+                reps.append(None)
+            elif m["type"] == "privesc" and m["name"] not in ok_p:
+                reps.append(None)
+            else:
+                reps.append(param_vector(ctx.spec, m))
+    else:
+        reps = list(ctx.actions)
+    try:
+        return _explore(ctx, oracles, max_states, record_graph, reps)
+    finally:
+        if action_rep == "param":
+            ctx.env = ctx.env_object
+
+
+def _explore(ctx, oracles, max_states, record_graph, reps):
     env, seam, model, layout = ctx.env, ctx.seam, ctx.model, ctx.layout
     if not ctx.rows_ok:
         raise HarnessError(f"{ctx.name}: initial tensor rows do not carry the scenario's addresses "
@@ -121,7 +175,7 @@ def explore(ctx, oracles, max_states=None, record_graph=False):
             o.on_state(ctx, s, key, ms)
         for a_idx, action in enumerate(ctx.actions):
             mact = ctx.mactions[a_idx]
-            if mact is None:
+            if mact is None or reps[a_idx] is None:
                 continue
             dv = draw_values(mact["prob"])
             pair = []
@@ -135,7 +189,7 @@ def explore(ctx, oracles, max_states=None, record_graph=False):
                 for o in pre_hooks:
                     o.pre_transition(ctx, s, key, action, side)
                 seam.arm(tr.draw)
-                s2, obs, reward, done, info = env.generative_step(s, action)
+                s2, obs, reward, done, info = env.generative_step(s, reps[a_idx])
                 tr.ndraws = seam.calls
                 tr.s2, tr.obs, tr.reward, tr.done, tr.info = s2, obs, reward, done, info
                 tr.key2 = s2.tensor.tobytes()
